@@ -745,7 +745,83 @@ func ruleC07Keeps(p *Program, r *Run) {
 				}
 				return true
 			})
-			r.Check(kept, "C07/keeps", key, p.Pos(as.Pos()), "the parsed node is placed in the tree (field, slice element, node literal) or returned", "the node parsed by "+exprStr(call.Fun)+" is never stored in the tree or returned: that part of the source is parsed and then dropped")
+			// ... and it is the node itself that is kept, not a part of it: the variable is never replaced by a child
+			// of its own value (looking through parentheses would leave their tokens outside every node's span)
+			descentReported := false
+			var rootOf func(x ast.Expr, depth int) (types.Object, bool)
+			rootOf = func(x ast.Expr, depth int) (types.Object, bool) {
+				descended := false
+				for depth < 8 {
+					switch u := ast.Unparen(x).(type) {
+					case *ast.SelectorExpr:
+						if selField(info, u) == nil {
+							return nil, false
+						}
+						x, descended = u.X, true
+						continue
+					case *ast.IndexExpr:
+						x, descended = u.X, true
+						continue
+					case *ast.TypeAssertExpr:
+						x = u.X
+						continue
+					case *ast.StarExpr:
+						x = u.X
+						continue
+					case *ast.Ident:
+						o := objOf(info, u)
+						if o == v {
+							return o, descended
+						}
+						// what the variable was defined as (also `paren, ok := x.(*ParenExpr)`)
+						var def ast.Expr
+						ndefs := 0
+						ast.Inspect(scope, func(z ast.Node) bool {
+							if as2, ok := z.(*ast.AssignStmt); ok {
+								for j, l2 := range as2.Lhs {
+									if objOf(info, l2) != o || o == nil {
+										continue
+									}
+									ndefs++
+									switch {
+									case len(as2.Lhs) == len(as2.Rhs):
+										def = as2.Rhs[j]
+									case len(as2.Rhs) == 1 && j == 0:
+										if ta, isTA := ast.Unparen(as2.Rhs[0]).(*ast.TypeAssertExpr); isTA {
+											def = ta
+										}
+									}
+								}
+							}
+							return true
+						})
+						if ndefs == 1 && def != nil {
+							ro, desc := rootOf(def, depth+1)
+							return ro, desc || descended
+						}
+						return o, descended
+					}
+					break
+				}
+				return nil, false
+			}
+			ast.Inspect(scope, func(y ast.Node) bool {
+				u, ok := y.(*ast.AssignStmt)
+				if !ok || u.Tok != token.ASSIGN {
+					return true
+				}
+				for i, l := range u.Lhs {
+					if i >= len(u.Rhs) || objOf(info, l) != v {
+						continue
+					}
+					if ro, desc := rootOf(u.Rhs[i], 0); ro == v && desc {
+						descentReported = true
+						r.Fail("C07/keeps", key+" is kept whole", p.Pos(u.Pos()), "the variable holding the node parsed by "+exprStr(call.Fun)+" is replaced by a part of that node ("+exprStr(u.Rhs[i])+"): the tokens of the enclosing node (e.g. its parentheses) were consumed but belong to no node of the tree, and lie outside every recorded span")
+					}
+				}
+				return true
+			})
+			r.Check(kept || descentReported, "C07/keeps", key, p.Pos(as.Pos()), "the parsed node is placed in the tree (field, slice element, node literal) or returned", "the node parsed by "+exprStr(call.Fun)+" is never stored in the tree or returned: that part of the source is parsed and then dropped")
 			return true
 		})
 	}
